@@ -24,6 +24,10 @@ import bindlib as B
 
 XML_NS = "http://www.w3.org/XML/1998/namespace"
 
+import logging
+
+logging.getLogger("xsdata.formats.dataclass.parsers.nodes.element").setLevel(logging.ERROR)
+
 
 def split(q):
     if q.startswith("{"):
